@@ -24,7 +24,7 @@ from ..core import TranslateError, clist, cnat, cnats, cints, cz, copt, np_seed
 F6_KEY = 'enforce:empty-constrained-row'
 
 IMPORTS = ('From Coq Require Import List ZArith Bool Arith.\n'
-           'Require Import Base.C05_Np Model.C05_BC Gen.C05Gen.')
+           'Require Import Base.C05_Np Model.C05_BC Model.C05_MPC Gen.C05Gen.')
 
 DEFS = r'''
 Definition mk (ip : list Z) (ix : list nat) (d : list Z) : csr Z := {| indptr := ip; indices := ix; data := d |}.
@@ -62,6 +62,14 @@ Definition NoZs : option (list Z) := None.
 Definition RaisesMO : option (list (list (nat * Z)) * option (list Z)) := None.
 Definition RaisesMM : option (list (list (nat * Z)) * list (list (nat * Z))) := None.
 Definition RaisesZs : option (list Z) := None.
+Definition NoRows : option (list (list (nat * Z))) := None.
+Definition densez (k : nat) (M : list (list (nat * Z))) := map (fun r => map (fun j => dense_entry Zops r j) (seq 0 k)) M.
+Definition run_mpc (c : csr Z * list Z * option (list nat) * option (list nat) * option (list (list (nat * Z))) * option (list Z)) :=
+  let '(A, b, Ss, Ms, T, g) := c in
+  let '(B, y, x0, perm) := mpc_call Zops (csr_rows A) b Ss Ms T g in (densez (length B) B, y, x0, perm).
+Definition run_tuple (c : list Z * list nat * list (list (nat * Z)) * list Z * list nat * list Z) :=
+  let '(x, perm, T, g, U, z) := c in gen_expand_tuple Zops x perm (gen_mpc_expand Zops T g U) z.
+Definition eq_mpc := pair_eqb (pair_eqb (pair_eqb zss_eqb zs_eqb) zs_eqb) nats_eqb.
 Definition eq_mo := pair_eqb rows_eqb ozs_eqb.
 Definition eq_mm := pair_eqb rows_eqb rows_eqb.
 Definition eq_cond := pair_eqb (pair_eqb (pair_eqb rows_eqb ozs_eqb) zs_eqb) nats_eqb.
@@ -212,10 +220,11 @@ def run(ctx):
                         'for enforce/penalize; condense needs no such assumption',
                         'index sets are duplicate-free with entries in [0,n) (what DofsView.flatten / np.unique deliver)',
                         'penalize is modelled with the weight w = 1/epsilon; the limit epsilon -> 0 is oracle only',
-                        'mpc is oracle only']
+                        'mpc: S and M duplicate-free and disjoint, T with |S| rows, g of length |S| (what mpc checks or np.setdiff1d assumes)']
     ctx.cov['rule'] = ('random square CSR systems n=1..8 (thorough: ..12): empty rows, explicit zeros, unsorted columns, '
                        'unsymmetric patterns; duplicate-free splits in random order given as I or D, as int32/int64 arrays, '
-                       'DofsView or dict of views of a real basis; vector / matrix / absent right-hand sides; overwrite on/off. '
+                       'DofsView or dict of views of a real basis; vector / matrix / absent right-hand sides; overwrite on/off; CSR storage with '
+                       'duplicate entries (oracle only); mpc with all defaults; default and given epsilon, zero constrained diagonal. '
                        'non-trivial = n>=2, 0<|D|<n and at least one stored off-diagonal entry; distinct by content')
     ctx.ensure_static()
     # 1. regenerate
@@ -238,13 +247,15 @@ def run(ctx):
     # 3. correspondence + 4. oracle share the generated cases
     state = {'maxdisc': 0.0, 'pen_maxdisc': 0.0, 'eig_maxdisc': 0.0}
     cases = {k: [] for k in ('enforce', 'enforce_eig', 'condense', 'condense_eig', 'penalize', 'expand', 'expand_eig',
-                             'positions')}
+                             'positions', 'mpc', 'tuple')}
     _gen_random(ctx, cases, state)
     _gen_basis(ctx, cases, state)
-    _oracle_mpc(ctx, state)
+    _oracle_mpc(ctx, state, cases)
     ctx.extra['max_float_discrepancy'] = {'solve_vs_exact(rel)': state['maxdisc'], 'tolerance': 1e-9,
                                           'penalize_vs_condense(rel)': state['pen_maxdisc'], 'penalize_tolerance': 1e-6,
-                                          'eigen_residual(rel)': state['eig_maxdisc'], 'eigen_tolerance': 1e-8}
+                                          'penalize_zero_diagonal_vs_condense(rel)': state.get('pen0_maxdisc', 0.0),
+                                          'eigen_residual(rel)': state['eig_maxdisc'], 'eigen_tolerance': 1e-8,
+                                          'mpc_solve_vs_exact(rel)': state.get('mpc_maxdisc', 0.0)}
     if gen_ok:
         nt = lambda r: r.get('nontrivial', False)  # noqa: E731
         spec = [('enforce', 'run_enforce', '(option_eqb eq_mo)'),
@@ -254,10 +265,13 @@ def run(ctx):
                 ('penalize', 'run_penalize', '(option_eqb eq_mo)'),
                 ('expand', 'run_expand', 'zs_eqb'),
                 ('expand_eig', 'run_expand_eig', 'zss_eqb'),
-                ('positions', 'run_positions', '(option_eqb zs_eqb)')]
-        for name, fn, eqb in spec:
-            if cases[name]:
-                ctx.corr(name, IMPORTS, fn, eqb, cases[name], defs=DEFS, nontrivial=nt)
+                ('positions', 'run_positions', '(option_eqb zs_eqb)'),
+                ('mpc', 'run_mpc', 'eq_mpc'), ('tuple', 'run_tuple', 'zs_eqb')]
+        # the files of the different functions are independent: evaluate them concurrently
+        from concurrent.futures import ThreadPoolExecutor
+        with ThreadPoolExecutor(4) as ex:
+            list(ex.map(lambda s: ctx.corr(s[0], IMPORTS, s[1], s[2], cases[s[0]], defs=DEFS, nontrivial=nt) if cases[s[0]] else None,
+                        spec))
 
 
 # ------------------------------------------------------------------------------------ single calls on the implementation
@@ -412,6 +426,14 @@ def check_condense_case(ctx, cases, state, n, csr, b, x, S, which, rng, Sarg=Non
     else:
         AII, bI, xr, Ir = out
     Ir_l, xr_l = [int(i) for i in Ir], ints(xr)
+    # expand=False: the same system without (x, I)
+    out2 = condense(A, bb, xx, expand=False, **{which: Sarr})
+    if b_eff is None:
+        same = sp.issparse(out2) and canon_rows(out2) == canon_rows(AII)
+    else:
+        same = isinstance(out2, tuple) and len(out2) == 2 and canon_rows(out2[0]) == canon_rows(AII) and ints(out2[1]) == ints(bI)
+    if not same:
+        ctx.fail('condense:expand=False', 'condense(expand=False) does not return the same condensed system without (x, I)', rep)
     rowsII = canon_rows(AII)
     got_bI = None if bI is None else ints(bI)
     if view_lists is None:
@@ -505,24 +527,112 @@ def check_penalize_case(ctx, cases, state, n, csr, b, x, S, which, k, rng):
     if gA != eA or gb != eb:
         ctx.fail('penalize:wrong-result', 'penalize: diagonal of D not 1/epsilon / rhs not x/epsilon / other entries changed',
                  dict(rep, expected=[eA, eb], got=[gA, gb]))
+    # overwrite=True: same result, the arguments are returned
+    A3 = to_scipy(ip, ix, d, n)
+    b3 = None if b is None else np.array(b, dtype=float)
+    out3 = penalize(A3, b3, xx, epsilon=2.0 ** -k, overwrite=True, **{which: Sarr})
+    A4, b4 = (out3 if isinstance(out3, tuple) else (out3, None))
+    if A4 is not A3 or (b3 is not None and b4 is not b3) or canon_rows(A4) != canon_rows(A2) or (b4 is not None and ints(b4) != gb):
+        ctx.fail('penalize:overwrite-differs', 'penalize(overwrite=True) differs from overwrite=False or does not return its arguments', rep)
+    # matrix right-hand side: the mass matrix is returned unchanged (a copy)
+    csrB = rand_csr(rng, n)
+    Bm = to_scipy(*csrB, n)
+    cb = checksum(Bm)
+    A5, B5 = penalize(to_scipy(ip, ix, d, n), Bm, epsilon=2.0 ** -k, **{which: Sarr})
+    if checksum(Bm) != cb or B5 is Bm or canon_rows(B5) != canon_rows(Bm) or canon_rows(A5) != canon_rows(A2):
+        ctx.fail('penalize:matrix-rhs', 'penalize with a matrix right-hand side: mass matrix changed / not copied, or stiffness differs', rep)
     cases['penalize'].append((tup(c_csr(ip, ix, d), c_ozs(b), c_ozs(x), *((c_onats(S), 'NoNats') if which == 'I' else ('NoNats', c_onats(S))),
                                   cz(w)), f'(Some ({c_rows(canon_rows(A2))}, {c_ozs(gb)}))', rep))
 
 
-def check_penalize_limit(ctx, state, n, csr, b, x, D, rng):
-    """default epsilon on a diagonally dominant system: penalised solution vs condensed solution"""
+def check_penalize_limit(ctx, state, n, csr, b, x, D, rng, zero_diag=False, key=None):
+    """default epsilon: penalised solution vs condensed solution on a system whose kept block is diagonally dominant.
+    zero_diag: the constrained rows carry a zero (or no) diagonal entry, as the pressure rows of a saddle-point system or
+    rows without stored entries do — the property quantifies over those matrices too."""
     from skfem.utils import penalize, condense, solve
-    A = to_scipy(*csr, n)
+    ip, ix, d = [list(a) for a in csr]
+    if zero_diag:
+        # drop the diagonal entries of the rows in D (every second one is kept as an explicit zero)
+        nip, nix, nd = [0], [], []
+        for i in range(n):
+            for k in range(ip[i], ip[i + 1]):
+                if i in D and ix[k] == i:
+                    if (i + len(nix)) % 2 == 0:
+                        nix.append(i)
+                        nd.append(0)
+                    continue
+                nix.append(ix[k])
+                nd.append(d[k])
+            nip.append(len(nix))
+        ip, ix, d = nip, nix, nd
+    A = to_scipy(ip, ix, d, n)
     bb, xx = np.array(b, dtype=float), np.array(x, dtype=float)
     Darr = idx_array(rng, D)
-    yp = solve(*penalize(A, bb, xx, D=Darr))
+    key = key or ('penalize:default-epsilon:zero-diagonal' if zero_diag else 'penalize:limit')
+    rep = {'fn': 'penalize (default epsilon) vs condense', 'n': n, 'indptr': ip, 'indices': ix, 'data': d, 'b': b, 'x': x, 'D': D}
+    ctx.count(('penalize_limit', zero_diag, n, ip, ix, d, b, x, D), nontrivial=0 < len(D) < n)
     yc = solve(*condense(A, bb, xx, D=Darr))
+    try:
+        with np.errstate(all='ignore'):
+            yp = solve(*penalize(A, bb, xx, D=Darr))
+    except Exception as e:  # noqa: BLE001
+        ctx.fail(key, f'solve(*penalize(...)) raises {e!r} where the condensed system is uniquely solvable', rep)
+        return
     disc = float(np.max(np.abs(yp - yc)) / max(1.0, np.max(np.abs(yc))))
-    state['pen_maxdisc'] = max(state['pen_maxdisc'], disc)
-    ctx.count(('penalize_limit', n, csr, b, x, D), nontrivial=0 < len(D) < n)
-    if disc > 1e-6:
-        ctx.fail('penalize:limit', f'penalize (default epsilon) deviates from condense by {disc:.2e}',
-                 {'n': n, 'csr': list(csr), 'b': b, 'x': x, 'D': D})
+    if not zero_diag:
+        state['pen_maxdisc'] = max(state['pen_maxdisc'], disc if np.isfinite(disc) else np.inf)
+    else:
+        state['pen0_maxdisc'] = max(state.get('pen0_maxdisc', 0.0), disc if np.isfinite(disc) else np.inf)
+    if not (disc <= 1e-6):
+        ctx.fail(key, f'penalize with its default epsilon deviates from condense by {disc:.2e} (rel): the prescribed values '
+                 f'are not imposed (y[D] = {yp[D].tolist()}, x[D] = {xx[D].tolist()})',
+                 dict(rep, penalized_solution=yp.tolist(), condensed_solution=yc.tolist()))
+
+
+def check_noncanonical(ctx, n, rng):
+    """CSR storage with DUPLICATE entries inside a row (outside the model's assumption): dense semantics of the
+    results of enforce / penalize / condense against the property statement (exact integers)."""
+    from skfem.utils import enforce, penalize, condense
+    ip, ix, d = [0], [], []
+    for i in range(n):
+        k = rng.randint(0, n + 2)
+        cols = [rng.randrange(n) for _ in range(k)]
+        ix += cols
+        d += [rng.choice([-3, -2, -1, 0, 1, 2, 3]) for _ in cols]
+        ip.append(len(ix))
+    A = to_scipy(ip, ix, d, n)
+    dense = dense_of(ip, ix, d, n)
+    S, which = rand_split(rng, n)
+    D = S if which == 'D' else [i for i in range(n) if i not in S]
+    I = [i for i in range(n) if i not in D] if which == 'D' else S
+    b = [rng.randint(-9, 9) for _ in range(n)]
+    x = [rng.randint(-9, 9) for _ in range(n)]
+    bb, xx, Sarr = np.array(b, dtype=float), np.array(x, dtype=float), idx_array(rng, S)
+    rep = {'fn': 'non-canonical CSR', 'n': n, 'indptr': ip, 'indices': ix, 'data': d, 'b': b, 'x': x, which: S}
+    ctx.count(('noncanonical', n, ip, ix, d, b, x, S, which), nontrivial=0 < len(D) < n)
+    before = checksum(A, bb, xx, Sarr)
+    has_empty_D = any(ip[dd] == ip[dd + 1] for dd in D)
+    try:
+        A2, b2 = enforce(A, bb, xx, diag=2.0, **{which: Sarr})
+        eA = [[(2 if j == i else 0) for j in range(n)] if i in D else dense[i] for i in range(n)]
+        eb = [x[i] if i in D else b[i] for i in range(n)]
+        if [[as_int(v) for v in r] for r in A2.toarray()] != eA or ints(b2) != eb:
+            ctx.fail(F6_KEY if has_empty_D else 'enforce:noncanonical', 'enforce on a CSR matrix with duplicate entries: wrong dense result', rep)
+        A3, b3 = penalize(A, bb, xx, epsilon=0.25, **{which: Sarr})
+        eA = [[(4 if (j == i and i in D) else dense[i][j]) for j in range(n)] for i in range(n)]
+        eb = [4 * x[i] if i in D else b[i] for i in range(n)]
+        if [[as_int(v) for v in r] for r in A3.toarray()] != eA or ints(b3) != eb:
+            ctx.fail('penalize:noncanonical', 'penalize on a CSR matrix with duplicate entries: wrong dense result', rep)
+        AII, bI, xr, Ir = condense(A, bb, xx, **{which: Sarr})
+        Il = [int(i) for i in Ir]
+        eII = [[dense[i][j] for j in Il] for i in Il]
+        ebI = [b[i] - sum(dense[i][j] * x[j] for j in D) for i in Il]
+        if sorted(Il) != sorted(I) or ([[as_int(v) for v in r] for r in AII.toarray()] if Il else []) != eII or ints(bI) != ebI:
+            ctx.fail('condense:noncanonical', 'condense on a CSR matrix with duplicate entries: wrong dense result', rep)
+    except Exception as e:  # noqa: BLE001
+        ctx.fail(F6_KEY if has_empty_D else 'noncanonical:raises:' + type(e).__name__, f'{type(e).__name__}: {e} on a CSR matrix with duplicate entries', rep)
+    if checksum(A, bb, xx, Sarr) != before:
+        ctx.fail('no_mutation:noncanonical', 'an argument was modified (CSR with duplicate entries)', rep)
 
 
 def check_expand(ctx, cases, n, x, I, z, X):
@@ -581,8 +691,18 @@ def check_eigen_pipeline(ctx, state, n, rng):
     for j in range(len(L)):
         r = (A @ Y[:, j] - L[j] * (M @ Y[:, j]))[I]
         res = max(res, float(np.max(np.abs(r))) / max(1.0, abs(L[j])))
-    state['eig_maxdisc'] = max(state['eig_maxdisc'], res)
+    state['eig_maxdisc'] = float(max(state['eig_maxdisc'], res))
     ctx.count(('eig_pipeline', n, D), nontrivial=True)
+    if n - len(D) >= 8:
+        # the library's default eigensolver (ARPACK shift-invert, k = 5) through the same expansion
+        L2, Y2 = solve(*condense(A, M, D=Darr))
+        for j in range(len(L2)):
+            r = (A @ Y2[:, j] - L2[j] * (M @ Y2[:, j]))[I]
+            res = max(res, float(np.max(np.abs(r))) / max(1.0, abs(L2[j])) / max(1.0, float(np.max(np.abs(Y2[:, j])))))
+        state['eig_maxdisc'] = float(max(state['eig_maxdisc'], res))
+        if Y2.shape[0] != n or not np.all(Y2[D, :] == 0):
+            ctx.fail('condense_eig:default-solver', 'solve(*condense(A, M, D=D)) with the default eigensolver: eigenvectors not zero on D '
+                     'or of the wrong length', {'n': n, 'D': D})
     if res > 1e-8 or not np.all(Y[D, :] == 0):
         ctx.fail('condense_eig:pipeline', f'expanded eigenvectors violate the kept rows (residual {res:.2e}) or are non-zero on D',
                  {'n': n, 'A': A.toarray().tolist(), 'M': M.toarray().tolist(), 'D': D})
@@ -593,7 +713,7 @@ def check_eigen_pipeline(ctx, state, n, rng):
 def _gen_random(ctx, cases, state):
     rng = ctx.rng
     nmax = ctx.n(8, 12)
-    N = ctx.n(260, 1500)
+    N = ctx.n(220, 1000)
     # the matrix of finding F6 first (fixed regression corpus), then random
     f6 = ([0, 2, 2, 5, 8], [1, 0, 3, 0, 2, 1, 3, 2], [1, 2, 3, 0, 5, 6, 7, 8])
     for D in ([0, 1, 2], [0, 1], [1, 2], [2, 3], [1], [3, 1, 0]):
@@ -631,8 +751,12 @@ def _gen_random(ctx, cases, state):
         D = S if which == 'D' else [i for i in range(n) if i not in S]
         if 0 < len(D) < n:
             check_penalize_limit(ctx, state, n, csr, b, x, D, rng)
+            if it % 4 == 0:
+                check_penalize_limit(ctx, state, n, csr, b, x, D, rng, zero_diag=True)
+    for it in range(ctx.n(60, 400)):
+        check_noncanonical(ctx, rng.randint(1, nmax), rng)
     for it in range(ctx.n(15, 80)):
-        check_eigen_pipeline(ctx, state, rng.randint(3, nmax), rng)
+        check_eigen_pipeline(ctx, state, rng.randint(3, nmax) if it % 3 else rng.randint(10, 14), rng)
     # positions: the generated arithmetic vs the implementation's lines executed verbatim is not observable directly;
     # what is observable is which stored values become zero: all-nonzero data, diag irrelevant
     for it in range(ctx.n(60, 300)):
@@ -729,45 +853,103 @@ def _gen_basis(ctx, cases, state):
             check_condense_case(ctx, cases, state, n, csr, b, x, S, which, rng, Sarg=Sarg, view_lists=vl)
 
 
-def _oracle_mpc(ctx, state):
-    """mpc is not modelled: exact oracle.  x[S] = T x[M] + g and the rows U, M of A x = b hold for the expanded solution"""
-    from skfem.utils import mpc
+def _oracle_mpc(ctx, state, cases=None):
+    """mpc: correspondence records for the model plus the exact oracle.  For the solution x returned by solve(*mpc(...)):
+    x[S] = T x[M] + g and the rows U, M of A x = b hold; all defaults (T, g, S, M omitted) are exercised; the expansion
+    branches of solve_linear / solve_eigen for a tuple I are checked exactly with stub solvers."""
+    from skfem.utils import mpc, solve, solve_linear, solve_eigen
     rng = ctx.rng
+    worst = 0.0
     for it in range(ctx.n(40, 200)):
         n = rng.randint(3, 8)
         csr = rand_csr(rng, n, dominant=True, empty_p=0.0)
         A = to_scipy(*csr, n)
         b = [rng.randint(-9, 9) for _ in range(n)]
         k = rng.randint(1, n // 2)
-        SM = rng.sample(range(n), 2 * k) if rng.random() < 0.5 else rng.sample(range(n), k + rng.randint(1, n - k))
-        S, M = SM[:k], SM[k:]
+        mode = it % 4
+        if mode == 3:
+            S, M = [], []                       # no constraint at all: S, M omitted
+        else:
+            SM = rng.sample(range(n), 2 * k) if (rng.random() < 0.5 or mode == 1) else rng.sample(range(n), k + rng.randint(1, n - k))
+            S, M = SM[:k], SM[k:]
         T = [[rng.choice([0, 0, 1, -1, 2]) for _ in M] for _ in S]
         g = [rng.randint(-3, 3) for _ in S]
+        kw = {}
+        if mode != 3:
+            kw = {'S': np.array(S), 'M': np.array(M)}
+            if mode == 1:                       # T omitted: identity (|S| = |M|)
+                T = [[1 if r == c else 0 for c in range(len(M))] for r in range(len(S))]
+            else:
+                kw['T'] = sp.csr_matrix(np.array(T, dtype=float).reshape(len(S), len(M)))
+            if mode == 2:                       # g omitted: zero
+                g = [0] * len(S)
+            else:
+                kw['g'] = np.array(g, dtype=float)
         U = [i for i in range(n) if i not in S and i not in M]
         bb = np.array(b, dtype=float)
         before = checksum(A, bb)
-        B, yv, x0, (perm, fexp) = mpc(A, bb, S=np.array(S), M=np.array(M), T=sp.csr_matrix(np.array(T, dtype=float).reshape(len(S), len(M))),
-                                       g=np.array(g, dtype=float))
-        ctx.count(('mpc', n, csr, b, S, M, T, g), nontrivial=True)
+        rep = {'fn': 'mpc', 'n': n, 'csr': list(csr), 'b': b, 'S': S, 'M': M, 'T': T, 'g': g, 'defaults': {0: 'none', 1: 'T', 2: 'g', 3: 'S,M,T,g'}[mode]}
+        B, yv, x0, (perm, fexp) = mpc(A, bb, **kw)
+        ctx.count(('mpc', n, csr, b, S, M, T, g, mode), nontrivial=mode != 3)
+        ctx.hist('mpc_defaults', rep['defaults'])
         if checksum(A, bb) != before:
-            ctx.fail('no_mutation:mpc', 'mpc modified its arguments', {'n': n})
+            ctx.fail('no_mutation:mpc', 'mpc modified its arguments', rep)
         dB = [[as_int(v) for v in r] for r in B.toarray()]
+        if cases is not None:
+            Tt = 'NoRows' if 'T' not in kw else f'(Some {c_rows(canon_rows(kw["T"]))})'
+            cases['mpc'].append((tup(c_csr(*csr), cints(b), c_onats(S if 'S' in kw else None), c_onats(M if 'M' in kw else None), Tt,
+                                     c_ozs(g if 'g' in kw else None)),
+                                 f'({clist([cints(r) for r in dB])}, {cints(ints(yv))}, {cints(ints(x0))}, {cnats([int(i) for i in perm])})',
+                                 dict(rep, nontrivial=mode != 3)))
         u = frac_solve(dB, ints(yv))
+        if [int(i) for i in perm] != U + M + S:
+            ctx.fail('mpc:permutation', 'mpc: index bookkeeping (U, M, S) wrong', dict(rep, got=[int(i) for i in perm]))
+            continue
         if u is None:
             continue
         uM = u[len(U):]
         xs = [sum(Fraction(T[r][c]) * uM[c] for c in range(len(M))) + g[r] for r in range(len(S))]
         full = [Fraction(0)] * n
-        for pos, i in enumerate([int(i) for i in perm]):
+        for pos, i in enumerate(U + M + S):
             full[i] += (u + xs)[pos]
         dense = dense_of(*csr, n)
-        ok = [int(i) for i in perm] == U + M + S and all(
-            sum(Fraction(dense[i][j]) * full[j] for j in range(n)) == b[i] for i in U + M)
-        # the expansion function of the implementation on the float vector
-        ef = fexp(np.array([float(v) for v in u]))
-        if not ok or len(ef) != n:
-            ctx.fail('mpc:solution', 'mpc: expanded exact solution violates rows U,M of A x = b or the index bookkeeping',
-                     {'n': n, 'csr': list(csr), 'b': b, 'S': S, 'M': M, 'T': T, 'g': g})
+        if not all(sum(Fraction(dense[i][j]) * full[j] for j in range(n)) == b[i] for i in U + M):
+            ctx.fail('mpc:solution', 'mpc: exact solution of the reduced system, expanded, violates rows U, M of A x = b', rep)
+            continue
+        # the float pipeline: solve(*mpc(...)) -> solve_linear's tuple branch
+        xf = solve(B, yv, x0, (perm, fexp))
+        disc = max(abs(float(xf[i]) - float(full[i])) for i in range(n)) / max(1.0, max(abs(float(v)) for v in full))
+        worst = max(worst, disc)
+        if not (disc <= 1e-9) or len(xf) != n:
+            ctx.fail('mpc:solve', f'solve(*mpc(...)) deviates from the exact constrained solution by {disc:.2e}', dict(rep, got=[float(v) for v in xf]))
+        # expansion branches with stub solvers (exact integers)
+        z = [rng.randint(-5, 5) for _ in range(len(U) + len(M))]
+        zz = np.array(z, dtype=float)
+        xl = solve_linear(None, None, np.zeros(n), (perm, fexp), solver=lambda A_, b_, **kw_: zz)
+        zM = z[len(U):]
+        exp = [0] * n
+        for pos, i in enumerate(U + M + S):
+            exp[i] += (z + [sum(T[r][c] * zM[c] for c in range(len(M))) + g[r] for r in range(len(S))])[pos]
+        if cases is not None:
+            Trows = [[(c, T[r][c]) for c in range(len(M)) if T[r][c] != 0] for r in range(len(S))]
+            cases['tuple'].append((tup(cints([0] * n), cnats(U + M + S), c_rows(Trows), cints(g), cnats(U), cints(z)), cints(ints(xl)),
+                                   dict(rep, z=z, nontrivial=mode != 3)))
+        if ints(xl) != exp:
+            ctx.fail('solve_linear:tuple-expansion', 'solve_linear with a (indices, expansion) tuple does not scatter the expanded vector',
+                     dict(rep, z=z, got=ints(xl), expected=exp))
+        X = np.array([[rng.randint(-5, 5) for _ in range(2)] for _ in range(len(U) + len(M))], dtype=float).reshape(len(U) + len(M), 2)
+        L, Y = solve_eigen(None, None, np.zeros(n), (perm, fexp), solver=lambda A_, M_, **kw_: (np.zeros(2), X))
+        okc = Y.shape == (n, 2)
+        for c in range(2 if okc else 0):
+            col = [as_int(v) for v in X[:, c]]
+            cM = col[len(U):]
+            e = [0] * n
+            for pos, i in enumerate(U + M + S):
+                e[i] += (col + [sum(T[r][cc] * cM[cc] for cc in range(len(M))) + g[r] for r in range(len(S))])[pos]
+            okc = okc and ints(Y[:, c]) == e
+        if not okc:
+            ctx.fail('solve_eigen:tuple-expansion', 'solve_eigen with a (indices, expansion) tuple does not scatter the expanded eigenvectors', rep)
+    state['mpc_maxdisc'] = worst
 
 
 def replay(ctx, data):
@@ -776,7 +958,7 @@ def replay(ctx, data):
     inp = data.get('input', {})
     ctx.log('replaying', data.get('key'))
     ctx.ensure_static()
-    cases = {k: [] for k in ('enforce', 'enforce_eig', 'condense', 'condense_eig', 'penalize', 'expand', 'expand_eig', 'positions')}
+    cases = {k: [] for k in ('enforce', 'enforce_eig', 'condense', 'condense_eig', 'penalize', 'expand', 'expand_eig', 'positions', 'mpc', 'tuple')}
     state = {'maxdisc': 0.0, 'pen_maxdisc': 0.0, 'eig_maxdisc': 0.0}
     which = 'D' if 'D' in inp else 'I'
     if inp.get('fn') == 'enforce':
@@ -785,6 +967,11 @@ def replay(ctx, data):
     elif inp.get('fn') == 'condense':
         check_condense_case(ctx, cases, state, inp['n'], (inp['indptr'], inp['indices'], inp['data']), inp['b'], inp['x'],
                             inp[which], which, ctx.rng)
+    elif inp.get('fn', '').startswith('penalize (default epsilon)'):
+        check_penalize_limit(ctx, state, inp['n'], (inp['indptr'], inp['indices'], inp['data']), inp['b'], inp['x'], inp['D'], ctx.rng,
+                             key=data.get('key'))
+        ctx.searched_known = False
+        return
     elif inp.get('fn') == 'enforce positions':
         _positions_case(ctx, cases, len(inp['indptr']) - 1, inp['indptr'], inp['D'], ctx.rng)
     else:
